@@ -190,6 +190,12 @@ def discharge(obligations, timeout_ms=30000, use_cli=True, jobs=None):
         return obligations
     tasks, shapes = [], []
     for i, ob in enumerate(todo):
+        if z3.is_true(z3.simplify(ob.claim)):
+            # literally true (e.g. a check on the concrete structure of the result): no query needed
+            ob.result = Result("PROVED", "trivial (claim simplifies to true)", 0.0)
+            shapes.append(None)
+            tasks.append(None)
+            continue
         flat, shape = _flatten_inputs(ob.inputs)
         s = z3.Solver()
         for a in ob.assumptions:
@@ -199,7 +205,10 @@ def discharge(obligations, timeout_ms=30000, use_cli=True, jobs=None):
             s.add(z3.Const("pyvc_in_%d" % k, t.sort()) == t)
         tasks.append((i, s.to_smt2(), len(flat), timeout_ms, use_cli))
         shapes.append(shape)
+    tasks = [t for t in tasks if t is not None]
     jobs = jobs or int(os.environ.get("PYVC_JOBS", "0")) or min(16, os.cpu_count() or 1)
+    if not tasks:
+        return obligations
     if jobs <= 1 or len(tasks) == 1:
         results = [_worker(t) for t in tasks]
     else:
